@@ -4,6 +4,21 @@ use crate::{catch, pipe, rec, sexp::dbg};
 use axcut2backend::coder::compile;
 use std::io::Write;
 
+/// linear AxCut programs from `n` random Fun programs (seeded) through the real pipeline
+pub fn generated_linear_programs(seed: u64, n: usize) -> Vec<(String, axcut::syntax::Prog)> {
+    let mut out = Vec::new();
+    let mut rng = crate::rng::Rng::new(seed ^ 0x5eed_f00d);
+    for k in 0..n {
+        let mut r = rng.fork();
+        let cfg = crate::gen_fun::FunGenCfg::mix(&mut r);
+        let g = crate::gen_fun::gen_program(&mut r, &cfg);
+        if let Ok(p) = pipe::linearized(&g.text) {
+            out.push((format!("gen:{seed}:{k}"), p));
+        }
+    }
+    out
+}
+
 /// linear AxCut programs: from .sc files through the real pipeline
 pub fn linear_programs(dirs: &[String]) -> Vec<(String, axcut::syntax::Prog)> {
     let dirs = if dirs.is_empty() { pipe::default_dirs() } else { dirs.to_vec() };
@@ -41,7 +56,9 @@ pub fn cmd_c10(which: &str, _seed: u64, _n: usize, out: &mut dyn Write, dirs: &[
 }
 
 pub fn cmd_codegen(which: &str, _seed: u64, _n: usize, out: &mut dyn Write, dirs: &[String]) {
-    for (k, (name, prog)) in linear_programs(dirs).into_iter().enumerate() {
+    let mut progs = linear_programs(dirs);
+    progs.extend(generated_linear_programs(_seed, _n));
+    for (k, (name, prog)) in progs.into_iter().enumerate() {
         let lc = axcut2backend::fresh_labels::fresh_label();
         let arity = prog.defs.first().map(|d| d.context.bindings.len()).unwrap_or(0);
         let mut rng = crate::rng::Rng::new(_seed.wrapping_add(k as u64));
